@@ -252,7 +252,7 @@ func c01Record(tag string, small bool) gRec {
 		r.comment = "A comment " + vBytes(2, c01Word) + "."
 	}
 	vn := vTier(2, 3)
-	switch vChoice(8) {
+	switch vChoice(9) {
 	case 0:
 	case 1:
 		r.feats = []gFeat{{key: "gene", locLines: []string{"1..3"}, quals: []gQual{{"gene", c01Value(vn)}}}}
@@ -265,6 +265,13 @@ func c01Record(tag string, small bool) gRec {
 	case 5:
 		v := c01Value(vn) + " " + c01Value(vn)
 		r.feats = []gFeat{{key: "gene", locLines: []string{"1..4"}, quals: []gQual{{"note", v}}, wrapAt: []int{vn}}}
+		vFindingClause("C01-F7", "qualifier-values-verbatim", v[vn+1] == '/')
+		vFindingClause("C01-F7", "qualifier-set-as-written", v[vn+1] == '/')
+	case 8:
+		// a wrapped /translation (re-joined without blank) followed by a wrapped /note (re-joined with one)
+		v := c01Value(vn) + " " + c01Value(vn)
+		tr := "MKV" + vBytes(2, "ACDEFGHIKLMNPQRSTVWY") + " LLA"
+		r.feats = []gFeat{{key: "misc_difference", locLines: []string{"1..3"}, quals: []gQual{{"translation", tr}, {"note", v}}, wrapAt: []int{5, vn}}}
 		vFindingClause("C01-F7", "qualifier-values-verbatim", v[vn+1] == '/')
 		vFindingClause("C01-F7", "qualifier-set-as-written", v[vn+1] == '/')
 	case 7:
